@@ -523,6 +523,8 @@ def concatenate(arrays, axis=0, _no_check=False, align=False, **kwargs):
 
     if type(axis) is not int:
         axis = arrays[0].dims.index(axis)
+    elif axis < 0 and axis + arrays[0].ndim >= 0:
+        axis += arrays[0].ndim # counted from the end (the axis is compared with positions below)
     dim = arrays[0].dims[axis]
 
     # align secondary axes prior to concatenate
